@@ -131,6 +131,8 @@ def check(kind, rep):
     module, cfg, tr = dict(cache=('Trace_Cache', CACHE_CFG, cache_traces), dea=('Trace_Dea', DEA_CFG, dea_traces), taylor=('Trace_Taylor', TAY_CFG, taylor_traces))[kind]
     tr = tr(evs)
     out = []
+    if not tr and kind in ('cache', 'taylor'):
+        raise vlib.MachineryError('the repository test suite produced no %s traces (%s)' % (kind, tail))
     if tr:
         res, acc = _validate(module, cfg, tr, 'Suite_' + kind)
         out.append(res)
